@@ -393,6 +393,13 @@ def _r22_split(src, ctx):
     return re.sub(r"\b(\w+)\.split\(('(?:[^'\\\\]|\\\\.)')\)", rep, src)
 
 
+def _r22_chars(src, ctx):
+    def rep(m):
+        ctx.log.append(('R22', m.group(0), f'verif_chars_vec(&{m.group(1)})'))
+        return f'verif_chars_vec(&{m.group(1)})'
+    return re.sub(r'\b(\w+)\.chars\(\)\.collect\(\)', rep, src)
+
+
 def r22_str_methods(src, ctx):
     """`v.dedup();` -> verif_dedup(&mut v); `X.trim_end()` -> verif_trim_end(&X); `X.trim_end().to_string()` -> verif_str_to_string(verif_trim_end(&X)); `<that> + "lit"` -> verif_str_add"""
     while True:
@@ -1075,6 +1082,7 @@ def apply_all(src, ctx):
         src = r22_str_methods(src, ctx)
         src = _r22_dedup(src, ctx)
         src = _r22_split(src, ctx)
+        src = _r22_chars(src, ctx)
     src = r6_format(src, ctx)
     src = r5_let_chain(src, ctx)
     src = r8_sort(src, ctx)
